@@ -37,18 +37,25 @@ ECtx(k, ch) ==
     [] k = 6 -> And_(g, Lt10(G_(If_(H_(e, "mgr"), G_(e, "mgr"), e), "n")))     \* if-then-else producing an entity
     [] k = 7 -> And_(g, B_("contains", <<"set", <<e>>>>, Pv))                  \* set of entities
     [] k = 8 -> And_(g, Lt10(G_(G_(RecLit(e), "a"), "n")))                     \* record containing an entity, then dereferenced
+    [] k = 9 -> And_(g, H_(G_(e, "rec"), "inner"))                             \* has on a record reached through the chain
+    [] k = 10 -> And_(g, And_(H_(G_(e, "rec"), "inner"), Lt10(G_(G_(e, "rec"), "inner"))))
+    [] k = 11 -> And_(g, Or_(B_("in", e, <<"lit", TG>>), B_("in", e, <<"lit", TG2>>)))   \* two membership tests on one path
+    [] k = 12 -> And_(g, And_(Not_(B_("in", e, <<"lit", TG>>)), B_("in", e, <<"lit", TG2>>)))
 LevelPols ==
   {<<WithId(WhenP(2, Ctx(k, Chains[i])), "p1", "permit")>> : k \in 1..6, i \in 1..Len(Chains)}
-  \cup {<<WithId(WhenP(2, ECtx(k, EChains[i])), "p1", "permit")>> : k \in 1..8, i \in 1..Len(EChains)}
+  \cup {<<WithId(WhenP(2, ECtx(k, EChains[i])), "p1", "permit")>> : k \in 1..12, i \in 1..Len(EChains)}
+  \cup {<<WithId(WhenP(2, ECtx(1, EChains[i])), "p1", "permit"),
+          WithId(WhenP(2, And_(EChains[i][2], B_("in", EChains[i][1], <<"lit", TG2>>))), "p2", "permit")>> : i \in 1..Len(EChains)}
   \cup {<<WithId(WhenP(2, Ctx(1, Chains[i])), "p1", "permit"), WithId(WhenP(2, ECtx(k, EChains[j])), "p2", "forbid")>>
         : i \in 1..Len(Chains), k \in {1, 3, 6}, j \in 1..Len(EChains)}
 AllSets == LevelPols \cup PolSets
 
-EnvChoices == { <<TRUE, "u2", TRUE, TRUE, TRUE, TRUE, "u1", 3, "u1">>, <<FALSE, "none", FALSE, FALSE, FALSE, FALSE, "u2", 2, "u1">>,
-                <<TRUE, "u3", FALSE, TRUE, FALSE, FALSE, "u1", 5, "u1">>, <<FALSE, "u2", TRUE, FALSE, TRUE, TRUE, "u2", 1, "u2">>,
-                <<TRUE, "u2", FALSE, FALSE, TRUE, FALSE, "u2", 4, "u1">>, <<FALSE, "u3", TRUE, TRUE, FALSE, TRUE, "u1", 1, "u2">>,
-                <<TRUE, "none", TRUE, FALSE, FALSE, TRUE, "u2", 5, "u2">>, <<FALSE, "u2", FALSE, TRUE, TRUE, FALSE, "u1", 3, "u1">>,
-                <<TRUE, "u2", TRUE, TRUE, FALSE, TRUE, "u2", 1, "u1">>, <<TRUE, "u2", TRUE, FALSE, TRUE, TRUE, "u1", 2, "u2">> }
+EnvChoices == { <<TRUE, "u2", TRUE, TRUE, "g", TRUE, "u1", 3, "u1">>, <<FALSE, "none", FALSE, FALSE, "no", FALSE, "u2", 2, "u1">>,
+                <<TRUE, "u3", FALSE, TRUE, "no", FALSE, "u1", 5, "u1">>, <<FALSE, "u2", TRUE, FALSE, "g", TRUE, "u2", 1, "u2">>,
+                <<TRUE, "u2", FALSE, FALSE, "g", FALSE, "u2", 4, "u1">>, <<FALSE, "u3", TRUE, TRUE, "no", TRUE, "u1", 1, "u2">>,
+                <<TRUE, "none", TRUE, FALSE, "no", TRUE, "u2", 5, "u2">>, <<FALSE, "u2", FALSE, TRUE, "g", FALSE, "u1", 3, "u1">>,
+                <<TRUE, "u2", TRUE, TRUE, "no", TRUE, "u2", 1, "u1">>, <<TRUE, "u2", TRUE, FALSE, "g", TRUE, "u1", 2, "u2">>,
+                <<TRUE, "u2", TRUE, TRUE, "g2", TRUE, "u1", 3, "u1">>, <<FALSE, "none", FALSE, FALSE, "g2", FALSE, "u2", 2, "u2">> }
 Levels == 0..4
 
 Coords == 1..8
